@@ -438,8 +438,16 @@ func famWire(r *Rng, o *Out, tier string) {
 	// whole caveat sets and tokens
 	for i := 0; i < n/5; i++ {
 		m := r.Intn(5)
+		if i%400 == 7 {
+			m = []int{1025, 1300, 1024, 1023}[(i/400)%4] // around and beyond the decoder's pre-allocation bound
+			o.count("cavs.long")
+		}
 		cs := make([]macaroon.Caveat, m)
 		for j := range cs {
+			if m > 100 {
+				cs[j] = &macaroon.ValidityWindow{NotBefore: int64(j), NotAfter: int64(j) + 5}
+				continue
+			}
 			cs[j] = r.WireCav(2)
 		}
 		b, err := macaroon.NewCaveatSet(cs...).MarshalMsgpack()
